@@ -422,6 +422,31 @@ impl<'a, 'b> Gen<'a, 'b> {
     /// obj.m1(args).m2.m3() ... : chained method calls (method_call ::= method_call_root . method_call_body)
     pub fn method_chain(&mut self, depth: usize) {
         self.tag("expr-method-chain");
+        if self.t.chance(1, 6) {
+            // a call through a hierarchical path with one to three indexed components: env.agents[0].drivers[1].run()
+            self.tag("expr-method-indexed-path");
+            self.id("env_h");
+            let k = 1 + self.t.below(3);
+            for _ in 0..k {
+                self.sym(".");
+                let c = *self.t.pick(&["agents", "drivers", "sub_q", "g_blk"]);
+                self.id(c);
+                if self.t.chance(3, 4) {
+                    self.sym("[");
+                    self.small_const();
+                    self.sym("]");
+                }
+            }
+            self.sym(".");
+            let m = *self.t.pick(&["run", "size", "get"]);
+            self.id(m);
+            self.sym("(");
+            if depth > 0 && self.t.chance(1, 3) {
+                self.expr(depth - 1);
+            }
+            self.sym(")");
+            return;
+        }
         match self.t.below(3) {
             0 => self.var_ref_ident_only(),
             1 => {
